@@ -5,8 +5,69 @@ package bbolt
 // Contracts for package bbolt (machine-checked by /verif/bbvc; see /verif/DESIGN.md §3).
 // This file contains comments only.
 
+// ---------------------------------------------------------------- C18: size arithmetic
+
+//@ pure func growsz(db *DB, mmapSize int, sz int) int = mmapSize <= db.AllocSize ? mmapSize : sz + db.AllocSize
+
 //@ func (*DB).growSize
 //@   props C18
-//@   ensures old(mmapSize) <= db.AllocSize ==> result == old(mmapSize)
-//@   ensures old(mmapSize) > db.AllocSize ==> result == wrapint(old(growSize) + db.AllocSize)
+//@   requires growSize >= 0 && db.AllocSize >= 0 && growSize <= 2305843009213693952 && db.AllocSize <= 2305843009213693952
+//@   ensures result == growsz(db, mmapSize, growSize)
 //@   modifies nothing
+
+//@ func (*DB).mmapSize
+//@   returns (r, err)
+//@   props C18 C11
+//@   requires db.pageSize >= 1 && db.pageSize <= 16777216 && size >= 0
+//@   ensures [ok] size <= common.MaxMapSize ==> err == nil
+//@   ensures [toobig] size > common.MaxMapSize ==> err != nil
+//@   ensures [cover] err == nil ==> r >= size && r >= 32768 && r <= common.MaxMapSize
+//@   ensures [small] size <= 1073741824 ==> err == nil && r <= 1073741824 && (r == 32768 || r < 2 * size)
+//@   modifies nothing
+//@   loop 0 invariant 15 <= i && i <= 31 && (i > 15 ==> size > pow2(i - 1))
+
+//@ func (*DB).fileSize
+//@   trusted
+//@   returns (sz, err)
+//@   props C18
+//@   ensures err == nil ==> sz == flen && flen >= 2 * db.pageSize
+//@   ensures err != nil ==> sz == 0
+//@   modifies nothing
+
+//@ func (*DB).grow
+//@   returns (err)
+//@   props C18 C01
+//@   requires sz >= 0 && sz <= 2305843009213693952 && db.AllocSize >= 0 && db.AllocSize <= 2305843009213693952 && db.datasz >= sz
+//@   ensures [maxsize] db.MaxSize > 0 && sz <= db.MaxSize ==> flen <= max(old(flen), db.MaxSize)
+//@   ensures [nogrowth] sz <= old(flen) ==> flen == old(flen)
+//@   ensures [grown] err == nil && !db.NoGrowSync && !db.readOnly ==> flen >= sz
+//@   ensures [monotone] flen >= old(flen) || (err == nil && flen >= sz)
+
+//@ func mmap
+//@   returns (err)
+//@   props C18 C17
+//@   requires sz > 0
+//@   ensures err == nil ==> db.datasz == sz
+//@   ensures err != nil ==> db.datasz == old(db.datasz)
+
+//@ func (*DB).mmap
+//@   opaque
+//@   returns (err)
+//@   props C18
+//@   ensures err == nil ==> db.datasz >= minsz
+//@   ensures db.rwtx == old(db.rwtx) && db.pageSize == old(db.pageSize) && db.MaxSize == old(db.MaxSize) && db.AllocSize == old(db.AllocSize)
+//@   ensures db.rwtx != nil ==> db.rwtx.meta == old(db.rwtx.meta) && db.rwtx.meta.pgid == old(db.rwtx.meta.pgid)
+//@   modifies db.dataref, db.data, db.datasz, db.meta0, db.meta1, all("node.key"), all("node.inodes"), all("Inode.key"), all("Inode.value"), allelems("byte")
+
+//@ func (*DB).allocate
+//@   returns (p, err)
+//@   props C18 C06 C08
+//@   requires db.pageSize >= 512 && db.pageSize <= 16777216 && db.rwtx != nil && db.rwtx.meta != nil && count >= 1 && count <= 4294967295
+//@   requires (db.rwtx.meta.pgid + count + 1) * db.pageSize <= 2305843009213693952 && db.AllocSize >= 0 && db.AllocSize <= 2305843009213693952 && db.datasz >= 0 && db.MaxSize >= 0
+//@   skip db.go:1173 because the page pool (sync.Pool with New = make([]byte, pageSize), set in Open) yields non-empty buffers; sync.Pool is outside the subset
+//@   ensures [hwm] err == nil ==> db.rwtx.meta.pgid == old(db.rwtx.meta.pgid) || db.rwtx.meta.pgid == old(db.rwtx.meta.pgid) + count
+//@   ensures [maxsize] err == nil && db.MaxSize > 0 && db.rwtx.meta.pgid != old(db.rwtx.meta.pgid) ==> (db.rwtx.meta.pgid + 1) * db.pageSize <= db.MaxSize
+//@   ensures [mapped] err == nil && db.rwtx.meta.pgid != old(db.rwtx.meta.pgid) ==> (db.rwtx.meta.pgid + 1) * db.pageSize <= db.datasz
+//@   ensures [errclean] err != nil ==> db.rwtx.meta.pgid == old(db.rwtx.meta.pgid)
+//@   ensures [page] err == nil ==> p != nil && p.overflow == count - 1 && (p.id >= 2 || p.id == old(db.rwtx.meta.pgid))
+//@   ensures [fresh] err == nil && db.rwtx.meta.pgid != old(db.rwtx.meta.pgid) ==> p.id == old(db.rwtx.meta.pgid)
